@@ -1610,5 +1610,47 @@ Theorem C04_wiring_Slice__assemble_vector :
 Proof. exact Proofs.GenAgreeWiring_C04.gen_wiring_Slice__assemble_vector. Qed.
 Print Assumptions C04_wiring_Slice__assemble_vector.
 
+Theorem C04_wiring_BaseSecondOrderMeasure_blocks :
+  wsrc_BaseSecondOrderMeasure_blocks = Some (WList [WList [WSelf "_base_values"; WSelf
+      "_subtotal_columns"]; WList [WSelf "_subtotal_rows"; WSelf "_intersections"]]).
+Proof. exact Proofs.GenAgreeWiring_C04.gen_wiring_BaseSecondOrderMeasure_blocks. Qed.
+Print Assumptions C04_wiring_BaseSecondOrderMeasure_blocks.
+
+Theorem C04_wiring_BaseSecondOrderMeasure__base_values :
+  wsrc_BaseSecondOrderMeasure__base_values = Some (WRaise "NotImplementedError").
+Proof. exact Proofs.GenAgreeWiring_C04.gen_wiring_BaseSecondOrderMeasure__base_values. Qed.
+Print Assumptions C04_wiring_BaseSecondOrderMeasure__base_values.
+
+Theorem C04_wiring_BaseSecondOrderMeasure__intersections :
+  wsrc_BaseSecondOrderMeasure__intersections = Some (WRaise "NotImplementedError").
+Proof. exact Proofs.GenAgreeWiring_C04.gen_wiring_BaseSecondOrderMeasure__intersections. Qed.
+Print Assumptions C04_wiring_BaseSecondOrderMeasure__intersections.
+
+Theorem C04_wiring_BaseSecondOrderMeasure__subtotal_columns :
+  wsrc_BaseSecondOrderMeasure__subtotal_columns = Some (WRaise "NotImplementedError").
+Proof. exact Proofs.GenAgreeWiring_C04.gen_wiring_BaseSecondOrderMeasure__subtotal_columns. Qed.
+Print Assumptions C04_wiring_BaseSecondOrderMeasure__subtotal_columns.
+
+Theorem C04_wiring_BaseSecondOrderMeasure__subtotal_rows :
+  wsrc_BaseSecondOrderMeasure__subtotal_rows = Some (WRaise "NotImplementedError").
+Proof. exact Proofs.GenAgreeWiring_C04.gen_wiring_BaseSecondOrderMeasure__subtotal_rows. Qed.
+Print Assumptions C04_wiring_BaseSecondOrderMeasure__subtotal_rows.
+
+Theorem C04_wiring_StripeBaseSecondOrderMeasure_base_values :
+  wsrc_StripeBaseSecondOrderMeasure_base_values = Some (WRaise "NotImplementedError").
+Proof. exact Proofs.GenAgreeWiring_C04.gen_wiring_StripeBaseSecondOrderMeasure_base_values. Qed.
+Print Assumptions C04_wiring_StripeBaseSecondOrderMeasure_base_values.
+
+Theorem C04_wiring_StripeBaseSecondOrderMeasure_blocks :
+  wsrc_StripeBaseSecondOrderMeasure_blocks = Some (WTuple [WSelf "base_values"; WSelf
+      "subtotal_values"]).
+Proof. exact Proofs.GenAgreeWiring_C04.gen_wiring_StripeBaseSecondOrderMeasure_blocks. Qed.
+Print Assumptions C04_wiring_StripeBaseSecondOrderMeasure_blocks.
+
+Theorem C04_wiring_StripeBaseSecondOrderMeasure_subtotal_values :
+  wsrc_StripeBaseSecondOrderMeasure_subtotal_values = Some (WRaise "NotImplementedError").
+Proof. exact Proofs.GenAgreeWiring_C04.gen_wiring_StripeBaseSecondOrderMeasure_subtotal_values. Qed.
+Print Assumptions C04_wiring_StripeBaseSecondOrderMeasure_subtotal_values.
+
 End Wiring_C04.
 (* ---- WIRING-APPENDIX:END ---- *)
